@@ -151,6 +151,8 @@ pub fn compressor_protocol(run: &mut Run, tier: Tier, prop: &str) {
             let mut c: FrameCompressor<&[u8], Vec<u8>, _> = FrameCompressor::new(CompressionLevel::Fastest);
             let mut src: Option<&[u8]> = None; // model: bytes the source still holds
             let mut drain: Option<Vec<u8>> = None; // model: what the drain must hold
+            let mut level = CompressionLevel::Fastest; // model: the level in force
+            let same_level = |a: CompressionLevel, b: CompressionLevel| matches!((a, b), (CompressionLevel::Fastest, CompressionLevel::Fastest) | (CompressionLevel::Uncompressed, CompressionLevel::Uncompressed));
             for (k, op) in seq.iter().enumerate() {
                 match *op {
                     P::SetSource(i) => {
@@ -172,7 +174,12 @@ pub fn compressor_protocol(run: &mut Run, tier: Tier, prop: &str) {
                         drain = Some(vec![]);
                     }
                     P::Level(fast) => {
-                        c.set_compression_level(if fast { CompressionLevel::Fastest } else { CompressionLevel::Uncompressed });
+                        let new = if fast { CompressionLevel::Fastest } else { CompressionLevel::Uncompressed };
+                        let old = c.set_compression_level(new);
+                        if !same_level(old, level) || !same_level(c.compression_level(), new) {
+                            return Some(("set_compression_level".into(), format!("operation {k}: set_compression_level({new:?}) returned {old:?} (the level in force was {level:?}) and compression_level() is now {:?}", c.compression_level())));
+                        }
+                        level = new;
                     }
                     P::TakeDrain => {
                         if c.take_drain() != drain.take() {
@@ -195,7 +202,8 @@ pub fn compressor_protocol(run: &mut Run, tier: Tier, prop: &str) {
                         }
                         let frame = &all[before..];
                         match zmodel::walker::walk(frame, None) {
-                            Ok(w) if w.consumed == frame.len() && w.plaintext == want && w.header.checksum_flag => {}
+                            // at the level "Uncompressed" every block is stored raw: that is what the level means
+                            Ok(w) if w.consumed == frame.len() && w.plaintext == want && w.header.checksum_flag && (same_level(level, CompressionLevel::Fastest) || w.blocks.iter().all(|b| b.kind == 0)) => {}
                             Ok(w) => return Some(("compress:frame".into(), format!("operation {k}: compress appended {} bytes that read as a frame of {} content bytes (checksum flag {}, {} bytes used); the source held {} bytes", frame.len(), w.plaintext.len(), w.header.checksum_flag, w.consumed, want.len()))),
                             Err(e) => return Some((if e.contains("checksum") { "compress:[C08]checksum".into() } else { format!("compress:invalid:{}", crate::ev::truncate(&e, 30)) }, format!("operation {k}: compress appended {} bytes that are not one well-formed frame of the {} bytes the source held: {e}", frame.len(), want.len()))),
                         }
